@@ -163,7 +163,9 @@ fn gen_server_history(rng: &mut Rng) -> ServerHistory {
     };
     ids.dedup();
     let ns = rng.usize(5);
-    let shutdowns: Vec<usize> = (0..ns).map(|_| rng.usize(5)).collect();
+    // grace intervals: small ones, and now and then one that saturates the identifier (the largest
+    // client-initiated bidirectional id must come out, never another kind of id)
+    let shutdowns: Vec<usize> = (0..ns).map(|_| if rng.chance(1, 12) { *rng.pick(&[usize::MAX, usize::MAX - 1, 1usize << 60, (1usize << 60) - 1, 1usize << 62]) } else { rng.usize(5) }).collect();
     let mut order: Vec<Act> = (0..ids.len()).map(Act::Request).chain((0..shutdowns.len()).map(Act::Shutdown)).collect();
     // shutdowns must be issued in their own order; requests in theirs: a random merge
     let mut merged = Vec::new();
